@@ -41,6 +41,12 @@ func clientOps(rep *Report, f *icl.File, variant int) {
 		return
 	}
 	create.ID = fmt.Sprintf("cli%d", variant)
+	if variant%3 == 1 {
+		// optional header members left blank by the submitter: what is stored must be blank too, not a default
+		create.FileHeader.CountryCode, create.FileHeader.UserField, create.FileHeader.CompanionDocumentIndicator = "", "", ""
+		create.FileHeader.ImmediateDestinationName, create.FileHeader.ImmediateOriginName, create.FileHeader.FileIDModifier = "", "", ""
+		rep.count("client-op:create:blank-optional-header-members")
+	}
 	rep.Evaluations++
 	if _, _, err := api.CreateICLFile(ctx, create, nil); err != nil {
 		// the known wire findings (member names / types) can make the server refuse the client's document
@@ -59,6 +65,19 @@ func clientOps(rep *Report, f *icl.File, variant int) {
 		}
 		if _, _, err := api.GetICLFileByID(ctx, create.ID, nil); err != nil {
 			rep.violate(Violation{Key: "C20:client-op:get:by-submitted-id", What: "GetICLFileByID with the ID submitted at creation fails: " + err.Error(), Replay: map[string]any{"id": create.ID}})
+		}
+		// the header the server stored is the header the client submitted, member by member
+		if g, err := repo.GetFile(create.ID); err == nil && g != nil {
+			var got client.IclFileHeader
+			if b, err := json.Marshal(&g.Header); err == nil && json.Unmarshal(b, &got) == nil {
+				want := create.FileHeader
+				got.ID, want.ID = "", ""
+				if !reflect.DeepEqual(got, want) {
+					m := firstFieldDiff(reflect.ValueOf(want), reflect.ValueOf(got))
+					rep.violate(Violation{Key: "C20:client-op:create:header:" + m, What: fmt.Sprintf("CreateICLFile: the stored file header differs from the one the client submitted in %s (submitted %+v, stored %+v)", m, want, got),
+						Replay: map[string]any{"submitted": want, "stored": got}})
+				}
+			}
 		}
 	}
 	// several clients creating DIFFERENT files through the v2 operation at the same time: each gets its own file back
